@@ -17,7 +17,7 @@ Lemma msg_of_nat k : N.to_nat (msg_of k - 2) = k.
 Proof. unfold msg_of. lia. Qed.
 
 Lemma tstate_mod tk0 tk : tstate tk0 tk -> init_ok tk0 -> t_mod tk < 2.
-Proof. intros H Hi. destruct (tstate_cases _ _ H Hi) as (_ & E & _). destruct Hi as (_ & _ & _ & _ & _ & Hm). lia. Qed.
+Proof. intros H Hi. destruct (tstate_cases _ _ H Hi) as (E & _). destruct Hi as (_ & _ & _ & _ & _ & Hm). lia. Qed.
 
 Lemma base_mod ts0 ts own nid k tk : Base ts0 ts own nid -> nth_error ts k = Some tk -> t_mod tk < 2.
 Proof.
@@ -149,15 +149,15 @@ Proof.
   apply (Forall2_nth_impl _ _ _ _ (b_states _ _ _ _ Hbase)). intros k tk0 tk Hk0 Hk Hst.
   assert (Hi : init_ok tk0).
   { pose proof (b_init _ _ _ _ Hbase) as Ha. rewrite Forall_forall in Ha. apply Ha. eapply nth_error_In; exact Hk0. }
-  destruct Hst as [->|a st rest H1 H2 H3 H4 H5 H6 H7 H8 H9 H10 H11|H1 H2 H3 H4 H5 H6 H7].
+  destruct Hst as [->|a st rest H1 H2 H3 H4 H5 H7 H8 H9 H10 H11|H1 H2 H3 H4 H5 H6 H7].
   - (* never spawned: its message would still be in the event set *)
     exfalso. destruct Hi as (_ & I2 & _ & _ & I5 & _).
     destruct (m_all _ _ _ Hmsgs k tk0 Hk (conj I2 I5)) as [[]|(e & He & _)]. rewrite Hsp in He. contradiction.
   - (* blocked: its timer is live, so a wake-up would still be in the event set *)
     exfalso. pose proof (base_mod _ _ _ _ _ _ Hbase Hk) as Hm.
     destruct (Hdrv (t_mod tk) Hm) as (l & _ & [Hmid Hwake] & Hperm & [Hentry _ _] & _).
-    destruct (aw_wake_held a H8) as [(s & Hs & Es) _].
-    assert (Hh : In s (held tk)) by (unfold held; rewrite H5, H6; exact Hs).
+    destruct (aw_wake_held a _ H8) as [(s & Hs & Es) _].
+    assert (Hh : In s (held tk)) by (unfold held; rewrite H5; exact Hs).
     pose proof (Hentry k tk s Hk Hh eq_refl (or_introl (fun F => F))) as Hin.
     assert (Hne : ents_at (deadline s) (pending (drv_of w (t_mod tk))) <> []) by (intros E; rewrite E in Hin; contradiction).
     assert (Hfin : deadline s < TMAX) by (rewrite Es; exact (base_blocked_fin _ _ _ _ _ _ _ Hbase Hk H5)).
@@ -174,7 +174,7 @@ Proof.
   apply (Forall2_nth_impl _ _ _ _ (b_states _ _ _ _ Hbase)). intros k tk0 tk Hk0 Hk Hst.
   assert (Hi : init_ok tk0).
   { pose proof (b_init _ _ _ _ Hbase) as Ha. rewrite Forall_forall in Ha. apply Ha. eapply nth_error_In; exact Hk0. }
-  destruct Hst as [->|a st rest H1 H2 H3 H4 H5 H6 H7 H8 H9 H10 H11|H1 H2 H3 H4 H5 H6 H7].
+  destruct Hst as [->|a st rest H1 H2 H3 H4 H5 H7 H8 H9 H10 H11|H1 H2 H3 H4 H5 H6 H7].
   - destruct Hi as (_ & _ & _ & I4 & _). rewrite I4. exists (expected tk0). reflexivity.
   - eexists. exact H11.
   - exists []. rewrite app_nil_r. symmetry. exact H7.
